@@ -1,21 +1,32 @@
 (* C16/Props.v -- property theorems only; each is closed by [exact] of a lemma
    from C16/P*.v and followed by Print Assumptions.  The model [resize1]
    (C16/Model.v) is the 1-d resize_array; its slice arithmetic and legality
-   guards are REGENERATED from odl/util/numerics.py into Gen/Padding.v. *)
+   guards are REGENERATED from odl/util/numerics.py into Gen/Padding.v.
+   [offset_ok n n_out off]  : 0 <= off and off + min <= max (the block fits);
+   [pad_legal m n n_out off]: the padding lengths the docstring allows for mode m. *)
 From Coq Require Import ZArith Reals List Bool.
 From Verif Require Import Base.Num Base.Vec Base.VecR C16.Syntax Gen.Padding C16.Model C16.Proofs.
 Import ListNotations.
 Local Open Scope R_scope.
 
-(* T1 (periodic, symmetric): whenever both directions succeed, the adjoint
-   direction is the transpose of the forward direction: <R x, y> = <x, R^T y>
-   for every input length, every admissible left/right padding and all contents. *)
-Theorem resize_adjoint_gather :
-  forall m c c' cast cast' (x yl ym yr : list R) fx ay,
-  gather_mode m = true -> (0 < length yl + length yr)%nat ->
-  pads_ok m (length x) (length yl) (length yr) -> length ym = length x ->
-  resize1 m Forward c cast x (length yl + length x + length yr) (Z.of_nat (length yl)) = Ok fx ->
-  resize1 m Adjoint c' cast' (yl ++ ym ++ yr) (length x) (Z.of_nat (length yl)) = Ok ay ->
-  dot fx (yl ++ ym ++ yr) = dot x ay.
-Proof. exact adjoint_gather. Qed.
-Print Assumptions resize_adjoint_gather.
+(* T1: forward and adjoint directions are transposes of each other.  For every
+   mode, every input length, every output length (growing, shrinking, equal),
+   every admissible offset and all contents x, y: both directions succeed and
+   <R x, y> = <x, R^T y>.  (pad_const = 0: the operator is linear.) *)
+Theorem resize_adjoint : forall (m : pmode) (x y : list R) (off : Z),
+  offset_ok (length x) (length y) off = true ->
+  pad_legal m (length x) (length y) off = true ->
+  exists fx ay,
+    resize1 m Forward 0 true x (length y) off = Ok fx /\
+    resize1 m Adjoint 0 true y (length x) off = Ok ay /\
+    length fx = length y /\ length ay = length x /\
+    dot fx y = dot x ay.
+Proof. exact adjoint_all. Qed.
+Print Assumptions resize_adjoint.
+
+(* non-vacuity: the side conditions hold e.g. for 3 -> 7 with offset 2 in every mode,
+   5 -> 2 with offset 3, and periodic padding as long as the array itself *)
+Example side_conditions_satisfiable :
+  forallb (fun m => offset_ok 3 7 2 && pad_legal m 3 7 2 && offset_ok 5 2 3 && pad_legal m 5 2 3) all_pmodes = true
+  /\ (offset_ok 3 9 3 && pad_legal PPeriodic 3 9 3 = true).
+Proof. split; vm_compute; reflexivity. Qed.
